@@ -127,6 +127,38 @@ def oracles(ctx: Ctx):
                 return
     else:
         ctx.notes.append("tamper.real: the CEK could not be observed at _client.cek_generate; key-aware forgeries skipped")
+    # alterations by a party that holds NO secret of the group: the blob re-targeted to public-key mode with a DH key blob of the
+    # modifier's choosing (degenerate public values, the modifier's own group)
+    from dpapi_ng._gkdi import FFCDHParameters
+
+    rk = e2e.mk_cache(roots)._root_keys[e2e.RKID]
+    gp = FFCDHParameters.unpack(rk.secret_parameters)
+    keyless = 0
+    for what, m in hostile.keyless_public_key_forgeries(blob, "sha512", gp.field_order, gp.generator, gp.key_length):
+        n += 1
+        keyless += 1
+        out = dec(run_impl(lambda a: e2e.impl_unprotect(a, symbolic=False), [roots, m]))
+        why = pred(None, out)
+        if why:
+            ctx.violation("failing-input", "oracle:tamper.real", {"unit": "tamper.real", "input": enc([roots, m]), "why": why + " (keyless: " + what + ")"},
+                          key="tamper.real.keyless")
+            return
+    ctx.extra["keyless_forgeries"] = keyless
+    # the same with a public value of small order r | p - 1 (7 and 13 for the RFC 5114 2.3 group load_key defaults to): one of the r
+    # candidates decrypts. Listed in known_findings.txt (key tamper.real.subgroup): not repairable without the subgroup order
+    sub = 0
+    for r in (7, 13):
+        for what, m in hostile.small_subgroup_forgeries(blob, "sha512", gp.field_order, gp.generator, gp.key_length, r):
+            n += 1
+            sub += 1
+            out = dec(run_impl(lambda a: e2e.impl_unprotect(a, symbolic=False), [roots, m]))
+            why = pred(None, out)
+            if why:
+                ctx.violation("failing-input", "oracle:tamper.real", {"unit": "tamper.real", "input": enc([roots, m]), "why": why + " (keyless: " + what + ")"},
+                              key="tamper.real.subgroup")
+                break
+    ctx.extra["small_subgroup_forgeries"] = sub
+    ctx.oracle_runs += keyless + sub
     ctx.oracle_runs += n
     ctx.extra["tamper_real"] = {"flips": n, "still_same_plaintext": same, "key_aware_forgeries": forged}
 
